@@ -106,6 +106,7 @@ fn real_main() {
                 "cyclic_parents" => families::Family::CyclicParents,
                 "deep_tree" => families::Family::DeepTree,
                 "rich_encrypted" => families::Family::RichEncrypted,
+                "dangling" => families::Family::Dangling,
                 _ => families::Family::Rich,
             };
             let mut pool = docs::Pool::new(&repo, env_seed());
